@@ -64,6 +64,8 @@ type LockInv struct {
 	Guards      []string
 	Invs        []*Clause
 	Assumed     []*Clause // assumed at Lock, never asserted (recorded as assumptions)
+	Followers   map[string][]string
+	Tokens      []string  // ghost token fields shared under this lock (value 2 = held by the current thread, stable)
 	Stable      []*Clause
 	Props       []string
 }
@@ -75,6 +77,8 @@ type Spec struct {
 	Pures   map[string]*PureFunc
 	Locks   []*LockInv
 	Fields  map[string]string // "Type.field" -> class (immutable, atomic, config, racy, monotone)
+	TokenTables map[string]string // "Type.field" (a map field) -> token ghost field
+	TokenSlots  map[string]string // "Type.field" -> ghost key field (optional)
 	Axioms  []*Clause // assumed facts about package-level state (listed as assumptions)
 	Observes map[string]string // "Type.field" -> ghost flag set when the field is read as true
 	Lemmas  []*FuncSpec
@@ -85,7 +89,7 @@ type Spec struct {
 var clauseKw = map[string]bool{
 	"pure": true, "func": true, "extern": true, "iface": true, "lockinv": true, "property": true,
 	"case": true, "requires": true, "ensures": true, "modifies": true, "loop": true, "cut": true,
-	"inline": true, "trusted": true, "field": true, "lemma": true, "guards": true, "invariant": true, "observe": true, "ghostset": true, "axiom": true, "ghostdef": true, "assumed": true,
+	"inline": true, "trusted": true, "field": true, "lemma": true, "guards": true, "invariant": true, "observe": true, "ghostset": true, "axiom": true, "ghostdef": true, "assumed": true, "atcall": true, "tokens": true, "consumes": true, "ghostat": true, "tokentable": true,
 	"stable": true, "assert": true, "params": true, "ghost": true,
 }
 
@@ -234,6 +238,87 @@ func ParseSpec(path string) (*Spec, error) {
 			fs := strings.Fields(rest)
 			if len(fs) == 3 && fs[1] == "as" {
 				sp.Observes[fs[0]] = fs[2]
+			}
+		case "atcall":
+			// atcall <callee>#<n>: <expr>   (assertion checked right before that call site)
+			k := strings.Index(rest, ": ")
+			if k < 0 {
+				return nil, fmt.Errorf("%s:%d: atcall callee#n: expr expected", path, rc.line)
+			}
+			head := strings.TrimSpace(rest[:k])
+			ord := 1
+			if h := strings.LastIndex(head, "#"); h > 0 {
+				ord, _ = strconv.Atoi(head[h+1:])
+				head = head[:h]
+			}
+			props, body := splitProps(strings.TrimSpace(rest[k+2:]))
+			e, err := parseExpr(body, rc.line)
+			if err != nil {
+				return nil, err
+			}
+			addClause(&Clause{Kind: "atcall", Block: head, Ord: ord, Text: body, Expr: e, Line: rc.line, Props: props})
+		case "ghostat":
+			// ghostat <callee>#<n>: gf_name(obj) = expr   (ghost update right before that call site)
+			k := strings.Index(rest, ": ")
+			if k < 0 {
+				return nil, fmt.Errorf("%s:%d: ghostat callee#n: target = expr expected", path, rc.line)
+			}
+			head := strings.TrimSpace(rest[:k])
+			ord := 1
+			if h := strings.LastIndex(head, "#"); h > 0 {
+				ord, _ = strconv.Atoi(head[h+1:])
+				head = head[:h]
+			}
+			body := strings.TrimSpace(rest[k+2:])
+			eq := strings.Index(body, " = ")
+			if eq < 0 {
+				return nil, fmt.Errorf("%s:%d: ghostat needs target = expr", path, rc.line)
+			}
+			le, err := parseExpr(strings.TrimSpace(body[:eq]), rc.line)
+			if err != nil {
+				return nil, err
+			}
+			re, err := parseExpr(strings.TrimSpace(body[eq+3:]), rc.line)
+			if err != nil {
+				return nil, err
+			}
+			addClause(&Clause{Kind: "ghostat", Block: head, Ord: ord, Text: body, Expr: re, Lhs: le, Line: rc.line})
+		case "tokentable":
+			// tokentable Type.field tok : storing a value into this map field hands its token to the table
+			fs := strings.Fields(rest)
+			if len(fs) == 2 || len(fs) == 3 {
+				if sp.TokenTables == nil {
+					sp.TokenTables = map[string]string{}
+					sp.TokenSlots = map[string]string{}
+				}
+				sp.TokenTables[fs[0]] = fs[1]
+				if len(fs) == 3 {
+					// ghost BV field recording the key a table-owned value is stored under (gv_<slot>)
+					sp.TokenSlots[fs[0]] = fs[2]
+				}
+			}
+		case "consumes":
+			e, err := parseExpr(rest, rc.line)
+			if err != nil {
+				return nil, err
+			}
+			addClause(&Clause{Kind: "consumes", Text: rest, Expr: e, Line: rc.line})
+		case "tokens":
+			if curLock != nil {
+				for _, g := range strings.Split(rest, ",") {
+					// `tok with gv_slot gb_acked`: ghost fields that only the holder of an object's token may change
+					fs := strings.Fields(g)
+					if len(fs) == 0 {
+						continue
+					}
+					curLock.Tokens = append(curLock.Tokens, fs[0])
+					if len(fs) > 2 && fs[1] == "with" {
+						if curLock.Followers == nil {
+							curLock.Followers = map[string][]string{}
+						}
+						curLock.Followers[fs[0]] = fs[2:]
+					}
+				}
 			}
 		case "ghostdef":
 			// ghostdef gb_name(o *T) = expr
